@@ -400,3 +400,249 @@ Definition C05_all_builtins_rel_full : Prop :=
     impl_rel_respecting eqfree
       (fun b => match b with B_unique | B_includes => false | _ => true end)
       nanfix binop_impl EvalFull.builtin_full.
+
+(* ================================================================================================
+   REL round: [C05_all_builtins_rel_full] is PROVED (proofs/RelPure.v: every pure arm of
+   EvalFull.builtin_full and sort_by / group_by / count_by respect any structural value relation;
+   proofs/EmitHOOpsFull.v: the instance R := vrel).  [biok_full] = every built-in except unique and
+   includes, whose arms apply Value::equals to argument elements (finding F53) — the exclusion is
+   necessary: [C05_includes_function_equality_refuted], [C05_all_builtins_unrestricted_refuted].
+   Hence the simulation and the emission equivalence hold for bodies that mention ANY other built-in
+   (aggregates, list / string / record built-ins, convert round random to_number to_string join,
+   sort_by group_by count_by, and the untranscribed ones, which are Unmodelled on both sides).
+   ================================================================================================ *)
+Require Import Blots.proofs.RelPure Blots.proofs.EmitHOOpsFull.
+
+Theorem C05_all_builtins_rel_full_proved : C05_all_builtins_rel_full.
+Proof. exact impl_rel_full_all. Qed.
+Check C05_all_builtins_rel_full_proved : forall nanfix,
+  impl_rel_respecting eqfree biok_full nanfix binop_impl EvalFull.builtin_full.
+Print Assumptions C05_all_builtins_rel_full_proved.
+
+(* the shortcut behind most arms: related values with no function inside are EQUAL *)
+Theorem C05_related_function_free_equal : forall opok biok nanfix v v',
+  vrel opok biok nanfix v v' -> BuiltinsText.has_function v = false -> v = v'.
+Proof. exact vrel_nofun_eq. Qed.
+Check C05_related_function_free_equal : forall opok biok nanfix v v',
+  vrel opok biok nanfix v v' -> BuiltinsText.has_function v = false -> v = v'.
+Print Assumptions C05_related_function_free_equal.
+
+Theorem C05_ho_simulation_full : forall release nanfix d fr fr' this this' f f' args args' st st',
+  vrel eqfree biok_full nanfix f f' -> lrel eqfree biok_full nanfix args args' ->
+  orel eqfree biok_full nanfix (fst (AD release binop_impl EvalFull.builtin_full d fr this f args st))
+                               (fst (AD release binop_impl EvalFull.builtin_full d fr' this' f' args' st')).
+Proof. exact ho_simulation_all. Qed.
+Check C05_ho_simulation_full : forall release nanfix d fr fr' this this' f f' args args' st st',
+  vrel eqfree biok_full nanfix f f' -> lrel eqfree biok_full nanfix args args' ->
+  orel eqfree biok_full nanfix (fst (AD release binop_impl EvalFull.builtin_full d fr this f args st))
+                               (fst (AD release binop_impl EvalFull.builtin_full d fr' this' f' args' st')).
+Print Assumptions C05_ho_simulation_full.
+
+Theorem C05_emit_equiv_higher_order_full :
+  forall release nanfix d fr fr' this this' id id' ps b sc args st st' r,
+    emit_ok eqfree biok_full (VLam id ps b sc) = true ->
+    forallb (emit_ok eqfree biok_full) args = true ->
+    fst (AD release binop_impl EvalFull.builtin_full d fr this (VLam id ps b sc) args st) = r ->
+    exists r', fst (AD release binop_impl EvalFull.builtin_full d fr' this'
+                       (VLam id' ps (subst true (scope_map nanfix true sc) b) []) args st') = r' /\
+      orel eqfree biok_full nanfix r r' /\
+      (forall v, r = Ok v -> lf v = true -> r' = Ok v) /\ (r = ErrDepth <-> r' = ErrDepth).
+Proof. exact emit_equiv_ho_same_args_all. Qed.
+Check C05_emit_equiv_higher_order_full :
+  forall release nanfix d fr fr' this this' id id' ps b sc args st st' r,
+    emit_ok eqfree biok_full (VLam id ps b sc) = true ->
+    forallb (emit_ok eqfree biok_full) args = true ->
+    fst (AD release binop_impl EvalFull.builtin_full d fr this (VLam id ps b sc) args st) = r ->
+    exists r', fst (AD release binop_impl EvalFull.builtin_full d fr' this'
+                       (VLam id' ps (subst true (scope_map nanfix true sc) b) []) args st') = r' /\
+      orel eqfree biok_full nanfix r r' /\
+      (forall v, r = Ok v -> lf v = true -> r' = Ok v) /\ (r = ErrDepth <-> r' = ErrDepth).
+Print Assumptions C05_emit_equiv_higher_order_full.
+
+(* a closure whose body uses the newly covered built-ins (sort_by with a captured key function, sum,
+   group_by, to_string, slice) satisfies the premise *)
+Example C05_emit_ok_full_example :
+  emit_ok eqfree biok_full
+    (VLam 0%nat [AReq "l"%string]
+       (EList [Cm [] (ECall (EBuiltin B_sort_by) [EId "l"%string; EId "key"%string]) None;
+               Cm [] (ECall (EBuiltin B_sum) [ECall (EBuiltin B_slice) [EId "l"%string; ENum nzero; EId "n"%string]]) None;
+               Cm [] (ECall (EBuiltin B_group_by)
+                        [EId "l"%string; ELam [AReq "k"%string] (ECall (EBuiltin B_to_string) [EId "k"%string])]) None])
+       [("key"%string, VLam 1%nat [AReq "y"%string] (EBin Multiply (EId "y"%string) (EId "s"%string))
+                         [("s"%string, VNum (nb 0xbff0000000000000))]);
+        ("n"%string, VNum (nb 0x4000000000000000))]) = true.
+Proof. vm_compute. reflexivity. Qed.
+
+(* F53 through a built-in: includes([k1], k2) / len(unique([k1, k2])) with k1, k2 closures that differ
+   only in a captured value — true / 1 before emission, false / 2 after reload *)
+Lemma C05_includes_function_equality_refuted :
+  closed_after_capture f53_includes_fun = true /\
+  call_on_full f53_includes_fun (VNum nzero) = Ok (VBool true) /\
+  call_on_full (reloaded true true f53_includes_fun) (VNum nzero) = Ok (VBool false).
+Proof. exact f53_includes_refuted. Qed.
+Lemma C05_unique_function_equality_refuted :
+  closed_after_capture f53_unique_fun = true /\
+  call_on_full f53_unique_fun (VNum nzero) = Ok (VNum (num_of_Z 1)) /\
+  call_on_full (reloaded true true f53_unique_fun) (VNum nzero) = Ok (VNum (num_of_Z 2)).
+Proof. exact f53_unique_refuted. Qed.
+(* ... hence the hypothesis with NO built-in excluded is false: the exclusion in biok_full is exact *)
+Lemma C05_all_builtins_unrestricted_refuted : ~ all_builtins_rel_unrestricted.
+Proof. exact all_builtins_rel_unrestricted_refuted. Qed.
+
+(* The exclusion is exact with respect to the CODE as well: the built-ins excluded from [biok_full] are exactly the arms
+   of BuiltInFunction::call whose source text applies Value::equals (coq/gen/ArmObservers.v, regenerated from
+   blots-core/src/functions.rs on every run; exhaustive over the regenerated built-in table). *)
+Require Import Blots.gen.ArmObservers.
+Theorem C05_equality_exclusion_matches_source : forall b, biok_full b = negb (src_applies_equals b).
+Proof. destruct b; reflexivity. Qed.
+Check C05_equality_exclusion_matches_source : forall b, biok_full b = negb (src_applies_equals b).
+Print Assumptions C05_equality_exclusion_matches_source.
+(* ---- F54 repaired (known/C05.json): input references ----
+   `#field` is `inputs.field`.  Repaired code: the free-variable scan counts it as a use of `inputs` (so the
+   Lambda arm captures `inputs`), and emission prints it the way it prints `inputs.field`, with the captured
+   `inputs` inlined.  The emitted form evaluates in EVERY configuration — whatever inputs the loading program
+   has — to what `#field` gave where `inputs` was the captured value (lit_roundtrip does the work). *)
+Require Import Blots.proofs.EmitInRef.
+Theorem C05_input_reference_emission : forall release binop_impl apply n d sc f v c0 c,
+  rec_get sc "inputs"%string = Some v -> emittable_gen v = true -> both_quotes f = false ->
+  lookup (snd c0) "inputs"%string = Some v ->
+  (* the emitted form: `<inputs>.f`, exactly what `inputs.f` emits — or, for a field spelled like a reserved
+     word, which cannot follow `.`, the index `<inputs>["f"]`, exactly what `inputs["f"]` emits *)
+  (is_valid_identifier f = true ->
+   subst d (scope_map n d sc) (EInRef f) = subst d (scope_map n d sc) (EDot (EId "inputs"%string) f)) /\
+  (is_valid_identifier f = false ->
+   subst d (scope_map n d sc) (EInRef f) = subst d (scope_map n d sc) (EAccess (EId "inputs"%string) (str_to_ast f))) /\
+  (* the same VALUE always, in every configuration *)
+  evalE release binop_impl apply c (subst d (scope_map n d sc) (EInRef f)) =
+    (fst (evalE release binop_impl apply c0 (EInRef f)), c).
+Proof.
+  intros release binop_impl apply n d sc f v c0 c Hsc Hem Hq Hin.
+  destruct (subst_inref n d sc f v Hsc) as (_ & A & B). split; [exact A|split; [exact B|]].
+  exact (inref_emission_sound release binop_impl apply n d sc f v c0 c Hsc Hem Hq Hin).
+Qed.
+Check C05_input_reference_emission : forall release binop_impl apply n d sc f v c0 c,
+  rec_get sc "inputs"%string = Some v -> emittable_gen v = true -> both_quotes f = false ->
+  lookup (snd c0) "inputs"%string = Some v ->
+  (is_valid_identifier f = true ->
+   subst d (scope_map n d sc) (EInRef f) = subst d (scope_map n d sc) (EDot (EId "inputs"%string) f)) /\
+  (is_valid_identifier f = false ->
+   subst d (scope_map n d sc) (EInRef f) = subst d (scope_map n d sc) (EAccess (EId "inputs"%string) (str_to_ast f))) /\
+  evalE release binop_impl apply c (subst d (scope_map n d sc) (EInRef f)) =
+    (fst (evalE release binop_impl apply c0 (EInRef f)), c).
+Print Assumptions C05_input_reference_emission.
+
+Theorem C05_input_reference_captures_inputs : forall fr f v,
+  lookup fr "inputs"%string = Some v -> capture fr (free_vars (EInRef f) []) [] = [("inputs"%string, v)].
+Proof. exact inref_captures_inputs. Qed.
+Check C05_input_reference_captures_inputs : forall fr f v,
+  lookup fr "inputs"%string = Some v -> capture fr (free_vars (EInRef f) []) [] = [("inputs"%string, v)].
+Print Assumptions C05_input_reference_captures_inputs.
+
+(* the witness of F54 end to end in the model: with inputs {rate: 2}, `x => x * #rate` captures inputs, is emitted
+   as (x) => x * {rate: 2}.rate, and the reloaded function applied to 3 in a program WITHOUT inputs gives 6
+   (as the original does); a parameter named `inputs` keeps its `#rate` *)
+Definition f54_inputs : value := VRec [("rate"%string, VNum (num_of_Z 2))].
+Definition f54_cfg : cfg := ([], [(FOwned, [("inputs"%string, f54_inputs)])]).
+Definition f54_lam : expr := ELam [AReq "x"%string] (EBin Multiply (EId "x"%string) (EInRef "rate"%string)).
+Example C05_F54_repaired :
+  let r := evalD true binop_impl builtin_impl 4 f54_cfg f54_lam in
+  match fst r with
+  | Ok fv =>
+      (match fv with VLam _ _ _ sc => sc | _ => [] end) = [("inputs"%string, f54_inputs)] /\
+      emit_ast true true fv =
+        Some (ELam [AReq "x"%string]
+                (EBin Multiply (EId "x"%string)
+                   (EDot (ERec [Cm [] (REntry (KStatic "rate"%string) (ENum (num_of_Z 2))) None]) "rate"%string))) /\
+      match emit_ast true true fv with
+      | Some e =>
+          match reload_ast 0%nat e with
+          | Some g =>
+              fst (evalD true binop_impl builtin_impl 4 ([None], [(FOwned, [("g"%string, g)])])
+                     (ECall (EId "g"%string) [ENum (num_of_Z 3)])) = Ok (VNum (num_of_Z 6)) /\
+              fst (evalD true binop_impl builtin_impl 4 (snd r)
+                     (ECall f54_lam [ENum (num_of_Z 3)])) = Ok (VNum (num_of_Z 6))
+          | None => False
+          end
+      | None => False
+      end
+  | _ => False
+  end /\
+  subst true [("inputs"%string, ENull)] (ELam [AReq "inputs"%string] (EInRef "rate"%string)) =
+    ELam [AReq "inputs"%string] (EInRef "rate"%string).
+Proof. vm_compute. repeat split. Qed.
+
+(* a field spelled like a reserved word: `#if` parses, `{..}.if` does not; emitted as an index.  With inputs
+   {"if": 2, rate: 3}: `x => x * #if + #rate` is emitted as (x) => x * {"if": 2, rate: 3}["if"] + {"if": 2, rate: 3}.rate
+   and the reloaded function applied to 5 in a program without those inputs gives 13, as the original does *)
+Definition f54r_inputs : value := VRec [("if"%string, VNum (num_of_Z 2)); ("rate"%string, VNum (num_of_Z 3))].
+Definition f54r_lit : expr :=
+  ERec [Cm [] (REntry (KStatic "if"%string) (ENum (num_of_Z 2))) None;
+        Cm [] (REntry (KStatic "rate"%string) (ENum (num_of_Z 3))) None].
+Definition f54r_lam : expr :=
+  ELam [AReq "x"%string] (EBin Add (EBin Multiply (EId "x"%string) (EInRef "if"%string)) (EInRef "rate"%string)).
+Example C05_F54_reserved_word_field :
+  is_valid_identifier "if"%string = false /\ is_valid_identifier "rate"%string = true /\
+  let r := evalD true binop_impl builtin_impl 4 ([], [(FOwned, [("inputs"%string, f54r_inputs)])]) f54r_lam in
+  match fst r with
+  | Ok fv =>
+      emit_ast true true fv =
+        Some (ELam [AReq "x"%string]
+                (EBin Add (EBin Multiply (EId "x"%string) (EAccess f54r_lit (EStr "if"%string)))
+                          (EDot f54r_lit "rate"%string))) /\
+      match emit_ast true true fv with
+      | Some e =>
+          match reload_ast 0%nat e with
+          | Some g =>
+              fst (evalD true binop_impl builtin_impl 4 ([None], [(FOwned, [("g"%string, g)])])
+                     (ECall (EId "g"%string) [ENum (num_of_Z 5)])) = Ok (VNum (num_of_Z 13)) /\
+              fst (evalD true binop_impl builtin_impl 4 (snd r)
+                     (ECall f54r_lam [ENum (num_of_Z 5)])) = Ok (VNum (num_of_Z 13))
+          | None => False
+          end
+      | None => False
+      end
+  | _ => False
+  end.
+Proof. vm_compute. repeat split. Qed.
+
+(* ---- ... and for the COMPLETE operator table and built-in set (EvalAll.v: every built-in of the
+   regenerated table, `^` through the oracle's powf; libm, Unicode tables, clock and lambda text are
+   fields of the oracle record o), for every oracle: AllLf.v, from FullClosed.v / FullAgree.v generalised
+   to an arbitrary value predicate (AllGenClosed.v) ---- *)
+Require Import Blots.EvalFull Blots.EvalAll Blots.proofs.AllLf.
+Theorem C05_impl_respecting_all : forall o, impl_lf_respecting (binop_all o) (builtin_all o).
+Proof. exact impl_lf_respecting_all. Qed.
+Check C05_impl_respecting_all : forall o, impl_lf_respecting (binop_all o) (builtin_all o).
+Print Assumptions C05_impl_respecting_all.
+
+Theorem C05_emit_equiv_first_order_evaluator_all :
+  forall o release nanfix d fr fr' this this' id id' params body sv args st,
+    first_order_body body = true ->
+    free_vars body (map arg_name params ++ map fst sv) = [] ->
+    forallb (fun kv => emittable_gen (snd kv)) sv = true ->
+    (forall x, special_name x = true -> rec_get sv x = None) ->
+    (forall x, In x (map arg_name params) -> rec_get sv x = None) ->
+    rec_get sv "inputs"%string = None ->
+    (forall n, lam_name st id = Some n -> rec_get sv n = None) ->
+    lfs args = true ->
+    AD release (binop_all o) (builtin_all o) d fr this (VLam id params body sv) args st =
+    AD release (binop_all o) (builtin_all o) d fr' this'
+       (VLam id' params (subst true (scope_map nanfix true sv) body) []) args st.
+Proof.
+  intros o release.
+  exact (emit_equiv_first_order release (binop_all o) (builtin_all o) (impl_lf_respecting_all o)).
+Qed.
+Check C05_emit_equiv_first_order_evaluator_all :
+  forall o release nanfix d fr fr' this this' id id' params body sv args st,
+    first_order_body body = true ->
+    free_vars body (map arg_name params ++ map fst sv) = [] ->
+    forallb (fun kv => emittable_gen (snd kv)) sv = true ->
+    (forall x, special_name x = true -> rec_get sv x = None) ->
+    (forall x, In x (map arg_name params) -> rec_get sv x = None) ->
+    rec_get sv "inputs"%string = None ->
+    (forall n, lam_name st id = Some n -> rec_get sv n = None) ->
+    lfs args = true ->
+    AD release (binop_all o) (builtin_all o) d fr this (VLam id params body sv) args st =
+    AD release (binop_all o) (builtin_all o) d fr' this'
+       (VLam id' params (subst true (scope_map nanfix true sv) body) []) args st.
+Print Assumptions C05_emit_equiv_first_order_evaluator_all.
